@@ -25,8 +25,13 @@ fn reser(schema: &str, bytes: &[u8]) -> String {
     r.unwrap_or("panic".into())
 }
 
+/// a binary member: usually of the customary length, now and then empty, one byte, or longer than the decoders'
+/// reservation cap (the members are byte strings of any length)
+fn bs(ctx: &mut Ctx, lo: u64, hi: u64) -> Vec<u8> {
+    match ctx.rng.below(12) { 0 => vec![], 1 => ctx.rng.bytes(1), 2 => { let n = *ctx.rng.pick(&[17usize, 33, 255, 256, 4095, 4096, 4097, 6000]); ctx.rng.bytes(n) } _ => ctx.rng.bytes_in(lo, hi) }
+}
 fn descriptor(ctx: &mut Ctx) -> PublicKeyCredentialDescriptor {
-    PublicKeyCredentialDescriptor { ty: PublicKeyCredentialType::PublicKey, id: ctx.rng.bytes_in(0, 40).into(),
+    PublicKeyCredentialDescriptor { ty: PublicKeyCredentialType::PublicKey, id: bs(ctx, 0, 40).into(),
         transports: match ctx.rng.below(3) { 0 => None, 1 => Some(vec![]), _ => Some(vec![AuthenticatorTransport::Usb, AuthenticatorTransport::Internal]) } }
 }
 fn opt<T>(ctx: &mut Ctx, f: impl FnOnce(&mut Ctx) -> T) -> Option<T> { if ctx.rng.bool() { Some(f(ctx)) } else { None } }
@@ -34,7 +39,7 @@ fn text(ctx: &mut Ctx) -> String { (0..ctx.rng.below(12)).map(|_| char::from_u32
 
 fn hmac_input(ctx: &mut Ctx) -> HmacGetSecretInput {
     HmacGetSecretInput { key_agreement: Value::Map(vec![(Value::Integer(1.into()), Value::Integer(2.into())), (Value::Integer((-2).into()), Value::Bytes(ctx.rng.bytes(32)))]),
-        salt_enc: ctx.rng.bytes_in(32, 64).into(), salt_auth: ctx.rng.bytes(16).into(), pin_uv_auth_protocol: opt(ctx, |c| c.rng.below(3) as u8) }
+        salt_enc: bs(ctx, 32, 64).into(), salt_auth: bs(ctx, 16, 16).into(), pin_uv_auth_protocol: opt(ctx, |c| c.rng.below(3) as u8) }
 }
 
 fn auth_data(ctx: &mut Ctx) -> AuthenticatorData {
@@ -52,37 +57,37 @@ pub fn auth_data_pub(ctx: &mut Ctx) -> AuthenticatorData { auth_data(ctx) }
 fn message(ctx: &mut Ctx, schema: &str) -> Vec<u8> {
     match schema {
         "makeCredentialRequest" => ser(&make_credential::Request {
-            client_data_hash: ctx.rng.bytes(32).into(),
+            client_data_hash: bs(ctx, 32, 32).into(),
             rp: make_credential::PublicKeyCredentialRpEntity { id: text(ctx), name: opt(ctx, text) },
-            user: webauthn::PublicKeyCredentialUserEntity { id: ctx.rng.bytes_in(0, 64).into(), display_name: text(ctx), name: text(ctx) },
+            user: webauthn::PublicKeyCredentialUserEntity { id: bs(ctx, 0, 64).into(), display_name: text(ctx), name: text(ctx) },
             pub_key_cred_params: (0..ctx.rng.below(3)).map(|_| PublicKeyCredentialParameters { ty: PublicKeyCredentialType::PublicKey, alg: iana::Algorithm::ES256 }).collect(),
             exclude_list: opt(ctx, |c| (0..c.rng.below(3)).map(|_| descriptor(c)).collect()),
             extensions: opt(ctx, |c| make_credential::ExtensionInputs { hmac_secret: opt(c, |c| c.rng.bool()), hmac_secret_mc: opt(c, hmac_input), prf: None }),
             options: make_credential::Options { rk: ctx.rng.bool(), up: ctx.rng.bool(), uv: ctx.rng.bool() },
-            pin_auth: opt(ctx, |c| c.rng.bytes(16).into()),
+            pin_auth: opt(ctx, |c| bs(c, 16, 16).into()),
             pin_protocol: opt(ctx, |c| c.rng.below(3) as u8),
         }),
         "makeCredentialResponse" => ser(&make_credential::Response {
             fmt: "none".into(), auth_data: auth_data(ctx), att_stmt: Value::Map(vec![]),
-            ep_att: opt(ctx, |c| c.rng.bool()), large_blob_key: opt(ctx, |c| c.rng.bytes(32).into()), unsigned_extension_outputs: None,
+            ep_att: opt(ctx, |c| c.rng.bool()), large_blob_key: opt(ctx, |c| bs(c, 32, 32).into()), unsigned_extension_outputs: None,
         }),
         "getAssertionRequest" => ser(&get_assertion::Request {
-            rp_id: text(ctx), client_data_hash: ctx.rng.bytes(32).into(),
+            rp_id: text(ctx), client_data_hash: bs(ctx, 32, 32).into(),
             allow_list: opt(ctx, |c| (0..c.rng.below(3)).map(|_| descriptor(c)).collect()),
             extensions: opt(ctx, |c| get_assertion::ExtensionInputs { hmac_secret: opt(c, hmac_input), prf: None }),
             options: make_credential::Options { rk: ctx.rng.bool(), up: ctx.rng.bool(), uv: ctx.rng.bool() },
-            pin_auth: opt(ctx, |c| c.rng.bytes(16).into()), pin_protocol: opt(ctx, |c| c.rng.below(3) as u8),
+            pin_auth: opt(ctx, |c| bs(c, 16, 16).into()), pin_protocol: opt(ctx, |c| c.rng.below(3) as u8),
         }),
         "getAssertionResponse" => ser(&get_assertion::Response {
-            credential: opt(ctx, descriptor), auth_data: auth_data(ctx), signature: ctx.rng.bytes_in(60, 72).into(),
-            user: opt(ctx, |c| webauthn::PublicKeyCredentialUserEntity { id: c.rng.bytes_in(1, 32).into(), display_name: text(c), name: text(c) }),
+            credential: opt(ctx, descriptor), auth_data: auth_data(ctx), signature: bs(ctx, 60, 72).into(),
+            user: opt(ctx, |c| webauthn::PublicKeyCredentialUserEntity { id: bs(c, 1, 32).into(), display_name: text(c), name: text(c) }),
             number_of_credentials: opt(ctx, |c| c.rng.below(5) as u8), user_selected: opt(ctx, |c| c.rng.bool()),
-            large_blob_key: opt(ctx, |c| c.rng.bytes(32).into()), unsigned_extension_outputs: None,
+            large_blob_key: opt(ctx, |c| bs(c, 32, 32).into()), unsigned_extension_outputs: None,
         }),
         "getInfoResponse" => ser(&get_info::Response {
             versions: vec![get_info::Version::FIDO_2_0, get_info::Version::U2F_V2],
             extensions: opt(ctx, |c| if c.rng.bool() { vec![get_info::Extension::HmacSecret, get_info::Extension::Prf] } else { vec![] }),
-            aaguid: Aaguid::new_empty(),
+            aaguid: if ctx.rng.bool() { Aaguid::new_empty() } else { let b = ctx.rng.bytes(16); let mut g = [0u8; 16]; g.copy_from_slice(&b); Aaguid(g) },
             options: opt(ctx, |c| get_info::Options { plat: c.rng.bool(), rk: c.rng.bool(), client_pin: opt(c, |c| c.rng.bool()), up: c.rng.bool(), uv: opt(c, |c| c.rng.bool()) }),
             max_msg_size: opt(ctx, |c| std::num::NonZeroU128::new(c.rng.range(1, 1 << 20) as u128).unwrap()),
             pin_protocols: opt(ctx, |c| vec![c.rng.below(3) as u8]),
